@@ -25,6 +25,10 @@ def run(index, tier="quick", seed=0) -> Result:
             n += 1
     if n < 4:
         raise AnalysisError(f"only {n} 2-D is_inside implementations analysed (4 confirmed)")
+    from ..dimscan import report_translation, scan as _scan
+    report_translation(res, _scan(index), lambda func, path: (path[0] if path else func).split(".")[0] in ("Polygon", "ConvexPolygon", "Circle", "Ellipse", "ConvexSpheropolygon") and (path[0] if path else func).endswith(".is_inside"),
+                       "is_inside implementations")
+
     # IN-6
     fn = index.cls("Polygon").lookup("is_inside")
     pad = False
@@ -56,7 +60,21 @@ def run(index, tier="quick", seed=0) -> Result:
         res.bad("IN-7", "Polygon.is_inside:rotation:forward", rot_pts[0].where(), "Polygon.is_inside rotates the points with the inverse of the rotation applied to the vertices")
     # IN-6: the answer is `winding number != 0` (orientation-free); judged on the value that is returned, however it is named
     verdicts = []
+
+    def _tests(v_):
+        """the comparison(s) the returned mask is built from: logical_and(a, b) / a & b is judged by its operands"""
+        x_ = v_.extra
+        if x_ and x_[0] == "logical" and x_[1] in ("logical_and",) and len(x_[2]) == 2:
+            return _tests(x_[2][0]) + _tests(x_[2][1])
+        return [v_]
+
+    rets_ = []
     for (v_, _s, n_) in r["returns"]:
+        cands = _tests(v_)
+        # an additional condition (e.g. an in-plane test) does not change the orientation-free winding test
+        wind = [c_ for c_ in cands if c_.extra and (c_.extra[0] in ("cmp", "not"))]
+        rets_.append((wind[0] if len(wind) >= 1 and len(cands) > 1 else v_, _s, n_))
+    for (v_, _s, n_) in rets_:
         x = v_.extra
         neg = False
         while x and x[0] == "not":
